@@ -18,6 +18,8 @@ TRUSTED = ['context switching (Suspend / Resume), the scheduler run loop, std::u
 DROPPED = ['std::unique_lock<Mutex>& lock in ConditionVariable::WaitImpl: lock.unlock() / lock.lock() are the Mutex operations under their contracts',
            'WaitStatus is an int enum; timeouts are opaque, the stub of the timed wait reports whether the (virtual) deadline passed']
 ASSUMPTIONS = ['recursion depth and reader count stay below 2^62 (no counter wrap-around)', 'no preemption inside a lock operation other than at the listed suspension points (cooperative scheduling)']
+# real-code drivers that exercise what this unit proves (thorough tier: sanity run on the tree under check)
+DRIVERS = [('fiber_locks.cpp', [sc], 'fiber') for sc in ('recursive', 'recursive_timed', 'shared_mixed', 'shared_excl', 'timed', 'shared_timed')]
 
 COMMON = r'''
 #include "vf.h"
